@@ -18,6 +18,12 @@ pub enum Root {
     Missing,
     /// the cache path is a regular file
     File,
+    /// `<cache>/tmp` is a regular file
+    TmpIsFile,
+    /// `<cache>/index-v5` is a regular file
+    IndexIsFile,
+    /// `<cache>/content-v2` is a regular file
+    ContentIsFile,
 }
 
 /// A checksum-valid index record with odd fields, planted by the harness.
@@ -186,7 +192,7 @@ impl Engine for C20 {
     fn rule(&self) -> String {
         "the union of what the other checks generate, judged only for 'the call returns and reports failure through its result': (1) random programs over the whole operation \
          language with hostile keys, zero-length data, declared sizes delivered in several chunks / too few / too many bytes, mismatching integrity declarations, abandoned writers, \
-         damaged content files and buckets, removal of what does not exist, on a cache root that is an empty directory, missing, or a regular file; (2) checksum-valid index records \
+         damaged content files and buckets, removal of what does not exist, on a cache root that is an empty directory, missing, a regular file, or a directory in which tmp / index-v5 / content-v2 is a regular file; (2) checksum-valid index records \
          with odd fields planted in buckets (unknown algorithm, empty / non-base64 / too short digests, several hashes, numbers beyond 64 and 128 bits, deeply nested metadata) \
          followed by programs; (3) C13 fault-injection cases and (4) C04 crash cases, run through those engines and judged for panics, hangs and abnormal process ends only. Every \
          call runs under catch_unwind with a panic hook, panics on runtime / blocking-pool threads are collected, and a per-case watchdog bounds termination. Non-trivial = a \
@@ -209,7 +215,7 @@ impl Engine for C20 {
         let c13e = c13::C13;
         let c04e = c04::C04;
         prop_oneof![
-            8 => (basic::program(cfg(tier)), prop_oneof![6 => Just(Root::Dir), 1 => Just(Root::Missing), 1 => Just(Root::File)], any::<u8>()).prop_map(|(mut prog, root, r)| {
+            8 => (basic::program(cfg(tier)), prop_oneof![8 => Just(Root::Dir), 1 => Just(Root::Missing), 1 => Just(Root::File), 1 => Just(Root::TmpIsFile), 1 => Just(Root::IndexIsFile), 1 => Just(Root::ContentIsFile)], any::<u8>()).prop_map(|(mut prog, root, r)| {
                 // sometimes a bucket file is replaced by a directory instead of being damaged
                 if r % 3 == 0 {
                     for s in prog.steps.iter_mut() {
@@ -302,6 +308,15 @@ impl Engine for C20 {
                 env.scratch.reset();
                 let cache = match root {
                     Root::Dir => env.scratch.cache.clone(),
+                    Root::TmpIsFile | Root::IndexIsFile | Root::ContentIsFile => {
+                        let name = match root {
+                            Root::TmpIsFile => "tmp",
+                            Root::IndexIsFile => "index-v5",
+                            _ => "content-v2",
+                        };
+                        std::fs::write(env.scratch.cache.join(name), b"not a directory").map_err(|e| format!("INFRA: {e}"))?;
+                        env.scratch.cache.clone()
+                    }
                     Root::Missing => env.scratch.root.join("does/not/exist"),
                     Root::File => {
                         let p = env.scratch.root.join("a-file");
@@ -317,9 +332,10 @@ impl Engine for C20 {
                     Root::Dir => "program_on_directory_root",
                     Root::Missing => "program_on_missing_root",
                     Root::File => "program_on_file_root",
+                    Root::TmpIsFile | Root::IndexIsFile | Root::ContentIsFile => "program_on_cache_with_a_file_in_place_of_an_area",
                 });
                 nontrivial = errs > 0 || interesting > 0;
-                if *root != Root::Dir {
+                if matches!(root, Root::Missing | Root::File) {
                     let _ = std::fs::remove_dir_all(env.scratch.root.join("does"));
                     let _ = std::fs::remove_file(env.scratch.root.join("a-file"));
                 }
